@@ -107,9 +107,9 @@ func c08() int {
 			leafSrc = append(leafSrc, s)
 		}
 	}
-	msp := &nsgen.Space{Blocks: []*nsgen.Block{
-		{Name: "mutation-base-dst", Amounts: vb.Amounts(), Sources: leafSrc[:8], Dests: vb.Dests()[:12]},
-		{Name: "mutation-base-src", Amounts: pb.Amounts()[:3], Sources: pb.Sources(), Dests: pb.Dests()[:1]},
+	msp := &nsgen.Space{Blocks: []nsgen.ProgBlock{
+		&nsgen.Block{Name: "mutation-base-dst", Amounts: vb.Amounts(), Sources: leafSrc[:8], Dests: vb.Dests()[:12]},
+		&nsgen.Block{Name: "mutation-base-src", Amounts: pb.Amounts()[:3], Sources: pb.Sources(), Dests: pb.Dests()[:1]},
 	}}
 	if rep.Thorough() {
 		msp.Blocks = append(msp.Blocks, &nsgen.Block{Name: "mutation-base-wide", Amounts: vb.Amounts(), Sources: vb.Sources(), Dests: vb.Dests()[:4]})
@@ -149,7 +149,7 @@ func c08() int {
 	})
 
 	// compilation cache: every sequence <= 4 over every triple of a script pool x cache sizes 1..3
-	cacheRuns := c08Cache(rep)
+	cacheRuns := c08Cache(rep) + nearDuplicateCache(rep, "")
 	shareRuns := c08Sharing(rep)
 
 	cov := st.coverage(sp, nsRule+"; plus odd programs, ill-typed single-slot variants, cache sequences and phase interleavings of two machines on one cached program")
@@ -177,7 +177,7 @@ func c08Pool() []struct {
 	in   *nsgen.Input
 } {
 	b := nsgen.Bounds{SrcDepth: 1, DstDepth: 1, Vars: true}
-	sp := &nsgen.Space{Blocks: []*nsgen.Block{{Name: "pool", Amounts: b.Amounts(), Sources: b.Sources(), Dests: b.Dests()}}}
+	sp := &nsgen.Space{Blocks: []nsgen.ProgBlock{&nsgen.Block{Name: "pool", Amounts: b.Amounts(), Sources: b.Sources(), Dests: b.Dests()}}}
 	var out []struct {
 		text string
 		in   *nsgen.Input
@@ -261,9 +261,9 @@ func c08Cache(rep *evid.Reporter) int {
 // for every ordered pair of inputs of every pool program: both must equal their solo result.
 func c08Sharing(rep *evid.Reporter) int {
 	b := nsgen.Bounds{SrcDepth: 1, DstDepth: 1, Vars: true}
-	sp := &nsgen.Space{Blocks: []*nsgen.Block{
-		{Name: "share-src", Amounts: b.Amounts(), Sources: b.Sources(), Dests: b.Dests()[:1]},
-		{Name: "share-dst", Amounts: b.Amounts()[:2], Sources: b.Sources()[:3], Dests: b.Dests()},
+	sp := &nsgen.Space{Blocks: []nsgen.ProgBlock{
+		&nsgen.Block{Name: "share-src", Amounts: b.Amounts(), Sources: b.Sources(), Dests: b.Dests()[:1]},
+		&nsgen.Block{Name: "share-dst", Amounts: b.Amounts()[:2], Sources: b.Sources()[:3], Dests: b.Dests()},
 	}}
 	var orders [][]int
 	var gen func(cur []int, a, bb int)
@@ -291,7 +291,7 @@ func c08Sharing(rep *evid.Reporter) int {
 		}
 		var inputs []*nsgen.Input
 		p.EachInput([]string{"3", "100"}, func(in *nsgen.Input) {
-			if len(inputs) < 4 {
+			if len(inputs) < 2 {
 				inputs = append(inputs, in)
 			}
 		})
